@@ -24,6 +24,7 @@ def dispatch (op : String) (j : Json) : R Json :=
   else if op.startsWith "out." || op.startsWith "fee." then handleOutput op j
   else if op.startsWith "builder." then handleBuilder op j
   else if op.startsWith "codec." || op.startsWith "cbor." then handleCodec op j
+  else if op.startsWith "custom." then handleCustom op j
   else if op.startsWith "sel." then handleSelection op j
   else if op.startsWith "backend." then handleBackend op j
   else if op.startsWith "bip32." then handleBip32 op j
